@@ -56,6 +56,8 @@ HOSTILE = [
     b"\x1b[31m" + H40[8:16] + b" (B 2023-01-01 00:00:00 +0000 2) y\x1b[m",
     b"\x1b[36m" + H40[:8] + b" (A U Thor 2020-01-01 00:00:00 +0000 3) z\x1b[m",
     H40[8:16] + b" (B 2023-01-01 00:00:00 +0000 4) w",
+    # grep hits whose code begins with zero-padded digits and a colon (times), with and without a file name
+    b"schedule.txt:09:00 standup", b"server.log:00:15:32 error", b"\tcase x: return 1", b"a.rs:007:x", b"a.rs-08-y",
     b"f.rs:0:x", b"f.rs:99999999999999999999:x",
     b'{"type":"match","data":{"path":{"text":"f.rs"},"lines":{"text":"ab\\n"},"line_number":0,"absolute_offset":0,"submatches":[]}}',
     b'{"type":"match","data":{"path":{"text":"f.rs"},"lines":{"text":"a\\t\xe2\x82\xac\xe2\x82\xac\xe2\x82\xac\xe2\x82\xac\\t\\n"},"line_number":3,"absolute_offset":0,"submatches":[{"match":{"text":"a"},"start":0,"end":1}]}}',
